@@ -84,7 +84,14 @@ func checkC07(c caseC07, rec *ev.Rec) *ev.Failure {
 			mode = "size+marker"
 		}
 	}
+	hs := ev.Hash64(b.Stream)
 	for _, dc := range c.DictCaps {
+		if hs%3 == 0 {
+			// an earlier reader of the same configuration that failed or was
+			// abandoned must not influence this one
+			priorDecode("lzma", b.Stream, dc, []string{"trunc", "flip", "abandon"}[hs/3%3], int(200+hs%750))
+			rec.Class("after_earlier_reader")
+		}
 		r, err := lzma.ReaderConfig{DictCap: dc}.NewReader(bytes.NewReader(b.Stream))
 		if err != nil {
 			return ev.Fail(fmt.Sprintf("NewReader(DictCap %d) rejects a valid %s stream (%s, %d bytes content): %v", dc, c.Src.Origin, mode, len(b.Content), err),
